@@ -226,6 +226,9 @@ int main(int argc, char **argv) {
     for (long long it = 0; it < count; ++it) {
       GenOpts o; o.nets = true; o.utilLo = 20; o.utilHi = 85; o.maxCells = maxCells; o.polarity = g.coin(50); o.turned = g.coin(50);
       TCircuit t = genCircuit(g, o);
+      // domain of the flow: a movable cell of positive area (as harness/flow.cpp ensureDomain; consumes no random draw: the other cases of a seed are unchanged)
+      { bool any = false; for (auto &c : t.cells) if (!c[6] && c[2] > 0 && c[3] > 0) any = true;
+        if (!any && !t.cells.empty() && !t.rows.empty()) { t.cells[0][6] = 0; if (t.cells[0][2] <= 0) t.cells[0][2] = 1; t.cells[0][3] = t.rows[0][3] - t.rows[0][2]; t.cells[0][4] = 0; } }
       int noiseSel = (int)g.uni(0, 3);   // default 1e-4, none, strong
       long long noise = noiseSel == 0 ? -1 : noiseSel == 1 ? 0 : noiseSel == 2 ? 100000 : 1000000;
       printf("DT %s %s %d %d %lld %llu\n", showRowsCells(t).c_str(), showNets(t).c_str(), (int)g.uni(1, 4), (int)g.uni(-1, 1000), noise,
@@ -267,7 +270,13 @@ int main(int argc, char **argv) {
         else if (how == 1) { Circuit a = orig; Circuit b = a; Circuit c(b); cmp(name, runFlow(c, p, withCb), withCb); Circuit d = buildCircuit(t); cmp(name, runFlow(d, p, withCb), withCb); }
         else {   // unrelated placements in between: another circuit / other parameters, then the original again
           SplitMix g(aux); GenOpts o; o.nets = true; o.utilLo = 20; o.utilHi = 85; o.maxCells = 16;
-          TCircuit u = genCircuit(g, o); Circuit cu = buildCircuit(u);
+          TCircuit u = genCircuit(g, o);
+          // the unrelated circuit must be inside the domain of the flow (a movable cell of positive area, as harness/flow.cpp ensureDomain):
+          // without one the side margin removes every row and computeSubdivisions asserts max >= min, which ABORTS the process and
+          // leaves the case unjudged (the 6 cases x 3 processes "crashes_not_attributed_to_C08" of the thorough run were these)
+          { bool any = false; for (auto &c : u.cells) if (!c[6] && c[2] > 0 && c[3] > 0) any = true;
+            if (!any && !u.cells.empty() && !u.rows.empty()) { u.cells[0][6] = 0; if (u.cells[0][2] <= 0) u.cells[0][2] = 1; u.cells[0][3] = u.rows[0][3] - u.rows[0][2]; u.cells[0][4] = 0; } }
+          Circuit cu = buildCircuit(u);
           ColoquinteParameters pu = makeParams(1 + (int)(aux % 3), seed + 17, 1000);
           try { runFlow(cu, pu, true); } catch (...) {}
           Circuit c1 = orig; ColoquinteParameters p2 = makeParams(effort, seed + 1, 500000);
